@@ -21,6 +21,9 @@ P = {
  "C14": ("Every track history up to depth 4 (thorough 5) over a 9-operation alphabet x instruments, plus seeded random 40-step histories over all content forms, values, 30 keys, 11 meters and five instrument kinds (notes on and beyond each range edge), are replayed on real Tracks and compared after every step with a list-of-exact-bars model; from_chords on nested chord lists and compositions with generated track selections are checked against their own models.",
          "Bar model from C13; instrument ranges as own pitch numbers; expected chord contents via NoteContainer.from_chord (C12/C06's subject).",
          "bounded-exhaustive history enumeration + model-based Hypothesis histories vs exact-rational track model"),
+ "C11": ("All 35 names x octaves 0-9 x 31 interval shorthands x up/down are enumerated at Note level against own letter/pitch arithmetic (incl. up-then-down restoration and change_octave clamping); seeded random tracks with 1-8 step transpose/augment/diminish histories applied at container, bar or track level are checked after every step against shadow Note copies (each targeted note equals the Note-level operation, untargeted notes, rests, beats, durations, channels and velocities untouched).",
+         "Own pitch arithmetic for ordinary names; the lifting differential (container vs Note-level operation) for every name.",
+         "bounded-exhaustive enumeration + Hypothesis operation histories vs reference arithmetic and lifting differential"),
 }
 DEFAULT_NOTE = "Oracle = independent reference model under /verif/vlib/ref; bounds per DESIGN.md section 4."
 
